@@ -29,7 +29,8 @@ def _variant(job):
     scratch = tempfile.mkdtemp(prefix="sa-selftest-")
     try:
         shutil.copytree(os.path.join(repo, "src"), os.path.join(scratch, "src"))
-        p = subprocess.run(["git", "apply", os.path.join(seed_dir, "patch.diff")], cwd=scratch, capture_output=True, text=True)
+        # only the library source is copied: the part of a patch that touches tests/ (a variant that ships its own test) is left out
+        p = subprocess.run(["git", "apply", "--include=src/*", os.path.join(seed_dir, "patch.diff")], cwd=scratch, capture_output=True, text=True)
         if p.returncode != 0:
             return os.path.basename(seed_dir), "patch does not apply to the current tree", None
         env = dict(os.environ, VERIF_EVIDENCE_DIR=os.path.join(scratch, "_ev"), VERIF_NO_SELFTEST="1", PYTHONHASHSEED="0")
